@@ -116,7 +116,7 @@ def trace_impls(F):
             yield im
 
 
-def run(rec, F, exceptions=None):
+def run(rec, F, exceptions=None, only_adts=None):
     exceptions = dict(EXCEPTIONS if exceptions is None else exceptions)
     R = rec.rule("F5.f", "every gc-bearing field of a Trace/TraceRoot ADT is read in trace() and flows to a Trace::trace call")
     bearing = sem.gc_bearing_adts(F)
@@ -135,6 +135,8 @@ def run(rec, F, exceptions=None):
     used_exc = set()
     for im in trace_impls(F):
         if not im["adt"]:
+            continue
+        if only_adts is not None and im["adt"] not in only_adts:
             continue
         adt = F.adts.get(im["adt"])
         if adt is None:
@@ -190,6 +192,9 @@ def run(rec, F, exceptions=None):
                             "gc-bearing field `%s: %s` of %s is not traced by its %s impl%s" % (
                                 exk[1], fty, short, lastseg(im["trait"]), "" if tr else " (default empty trace body)"),
                             loc=fnloc, fn=tr[0]["path"] if tr else im["self"])
+    if only_adts is not None:
+        rec.floor(R, "requested Trace impls", n_impls, 1)
+        return
     rec.floor(R, "Trace/TraceRoot impls on local ADTs", n_impls, 190)
     for exk in exceptions:
         if exk not in used_exc:
